@@ -42,6 +42,15 @@ LOADER_CFG = ['loader.ConfigLoader.__init__', 'loader.ConfigLoader.loadResource'
               'loader.ConfigLoader.startSection', 'loader.ConfigLoader.endSection',
               'loader.ConfigLoader.includeConfiguration', 'loader.ConfigLoader._parse_resource']
 
+INFO_BUILD = ['info.BaseInfo.__init__', 'info.BaseKeyInfo.__init__', 'info.BaseKeyInfo.finish', 'info.BaseKeyInfo.adddefault',
+              'info.BaseKeyInfo.prepare_raw_defaults', 'info.KeyInfo.__init__', 'info.KeyInfo.add_valueinfo',
+              'info.KeyInfo.computedefault', 'info.MultiKeyInfo.__init__', 'info.MultiKeyInfo.add_valueinfo',
+              'info.MultiKeyInfo.computedefault', 'info.SectionInfo.__init__', 'info.AbstractType.__init__',
+              'info.AbstractType.addsubtype', 'info.SectionType.__init__', 'info.SectionType._add_child',
+              'info.SectionType.addkey', 'info.SectionType.addsection', 'info.SchemaType.__init__',
+              'info.SchemaType.addtype', 'info.SchemaType.createSectionType', 'info.SchemaType.deriveSectionType',
+              'info.SchemaType.addComponent', 'info.SchemaType.hasComponent', 'info.createDerivedSchema']
+
 PROPS = {
     'C01': {'functions': INFO_MATCH + MATCHER + LOADER_CFG, 'standin': True},
     'C02': {'functions': ['info.ValueInfo.convert', 'matcher.SchemaMatcher.__init__', 'matcher.SchemaMatcher.finish'] + MATCHER,
@@ -73,8 +82,8 @@ PROPS = {
         'bind': ['bind:datatypes'],
         'standin': True,
     },
-    'C10': {'functions': [], 'standin': True},
-    'C11': {'functions': [], 'standin': True},
+    'C10': {'functions': INFO_BUILD, 'standin': True},
+    'C11': {'functions': INFO_BUILD, 'standin': True},
     'C12': {'functions': ['info.SectionType.getsectioninfo', 'info.AbstractType.getsubtype',
                           'info.AbstractType.hassubtype', 'info.AbstractType.isabstract',
                           'info.SectionType.isabstract', 'info.SectionType.gettype', 'loader.ConfigLoader.startSection',
